@@ -398,12 +398,29 @@ fn run_darray_states_bits<const S0: bool>(rep: &mut Rep, bits: Vec<bool>, seed: 
         Out::Val(t) => states.push((name, t)),
         Out::Panic(p) => state_viol(rep, name, &p),
     };
-    add(rep, "new", &|| DArray::<S0>::new(bits.iter().copied().collect()));
-    add(rep, "collect<bool>", &|| bits.iter().copied().collect());
+    // interpreter lanes, long vectors (the sparse-block shapes need > 65536 bits): collecting 10^5 booleans costs
+    // more than a minute under Miri, so the bit vector comes from the position list (+ zero tail) and the per-bit
+    // construction paths are left to the native lanes
+    let long_tiny = tiny() && bits.len() > 20_000;
+    let bv_of = || -> BitVector {
+        if long_tiny {
+            let mut b: qwt::BitVectorMut = m.ones.iter().copied().collect();
+            b.extend_with_zeros(bits.len() - b.len());
+            BitVector::from(b)
+        } else {
+            bits.iter().copied().collect()
+        }
+    };
+    add(rep, "new", &|| DArray::<S0>::new(bv_of()));
+    if !long_tiny {
+        add(rep, "collect<bool>", &|| bits.iter().copied().collect());
+    }
     if bits.last() == Some(&true) || bits.is_empty() {
         add(rep, "collect<usize>", &|| m.ones.iter().copied().collect());
-        add(rep, "collect<u32>", &|| m.ones.iter().map(|&p| p as u32).collect());
-        add(rep, "collect<i64>", &|| m.ones.iter().map(|&p| p as i64).collect());
+        if !long_tiny {
+            add(rep, "collect<u32>", &|| m.ones.iter().map(|&p| p as u32).collect());
+            add(rep, "collect<i64>", &|| m.ones.iter().map(|&p| p as i64).collect());
+        }
     }
     if bits.is_empty() {
         add(rep, "default", &|| DArray::<S0>::default());
@@ -411,15 +428,17 @@ fn run_darray_states_bits<const S0: bool>(rep: &mut Rep, bits: Vec<bool>, seed: 
         add(rep, "new(BitVector::default())", &|| DArray::<S0>::new(BitVector::default()));
         add(rep, "de(ser(default))", &|| bincode::deserialize(&bincode::serialize(&DArray::<S0>::default()).expect("ser")).expect("de"));
     }
-    add(rep, "clone", &|| DArray::<S0>::new(bits.iter().copied().collect()).clone());
-    add(rep, "de(ser)", &|| {
-        let d = DArray::<S0>::new(bits.iter().copied().collect());
-        bincode::deserialize(&bincode::serialize(&d).expect("ser")).expect("de")
-    });
+    add(rep, "clone", &|| DArray::<S0>::new(bv_of()).clone());
+    if !long_tiny {
+        add(rep, "de(ser)", &|| {
+            let d = DArray::<S0>::new(bv_of());
+            bincode::deserialize(&bincode::serialize(&d).expect("ser")).expect("de")
+        });
+    }
     drop(add);
     let o = VecOpts { budget, unchecked: false, invalid: true };
     let n = m.len();
-    for (name, d) in &states {
+    for (si, (name, d)) in states.iter().enumerate() {
         if rep.trace {
             rep.journal("state", name);
         }
@@ -436,7 +455,8 @@ fn run_darray_states_bits<const S0: bool>(rep: &mut Rep, bits: Vec<bool>, seed: 
                 // documented: select0 panics on a DArray built without select0 support
                 chk!(rep, "select0[no support]", (name, i), Exp::PanicOr(m.zeros.get(i).copied()), d.select0(i));
             }
-            if !tiny() || i == 0 || i == usize::MAX {
+            // (interpreters, long vectors: the full walk over 10^5 zeros once per case, from position 0)
+            if (!tiny() || i == 0 || i == usize::MAX) && (!long_tiny || si == 0 || i == usize::MAX) {
                 let eo: Vec<usize> = m.ones.iter().copied().filter(|&x| x >= i).collect();
                 let ez: Vec<usize> = m.zeros.iter().copied().filter(|&x| x >= i).collect();
                 chk!(rep, "ones_with_pos", (name, i), Exp::Is(true), d.ones_with_pos(i).collect::<Vec<_>>() == eo);
@@ -771,7 +791,7 @@ pub fn cases_c04(cfg: &Cfg) -> Vec<Case> {
     }
     // ---- DArray states over sparse / partial block shapes (the bit specs above only give dense blocks)
     let shapes: Vec<(&'static str, Vec<Group>, usize)> = vec![
-        ("two ones 100000 apart", vec![Group::Span { count: 2, span: 100_000 }], 0),
+        ("two ones 100000 apart", vec![Group::Span { count: 2, span: if cfg.scale == Scale::Tiny { 66_000 } else { 100_000 } }], 0),
         ("33 ones spanning 70000 (partial sparse block)", vec![Group::Span { count: 33, span: 70_000 }], 5),
         ("40 ones 70000 apart", vec![Group::Stepped { count: 40, step: 70_000 }], 0),
         ("sparse block, dense block, partial sparse block", vec![Group::Stepped { count: 1024, step: 65 }, Group::Stepped { count: 1024, step: 1 }, Group::Span { count: 45, span: 66_000 }], 3),
